@@ -544,6 +544,12 @@ def main():
     )
     if prop.get("exhaustive"):
         cov["exhaustive"] = True
+    # translation-validation properties: named counters of the generator (e.g. programs compiled and executed) and the
+    # number of answers of the implementation that were checked for disagreement with the model / the direct oracles
+    for key, counter in prop.get("evidence_counters", {}).items():
+        cov[key] = int(meta.get("distribution", {}).get(counter, 0))
+    if prop.get("evidence_counters"):
+        cov["disagreements_checked"] = stats.get("compared", 0) + stats.get("go_only", 0) if stats else 0
     ev = dict(property_id=pid, tier=a.tier, seed=a.seed, level=prop.get("level", "proof"), coverage=cov,
               assumptions=prop.get("assumptions", []), wall_s=round(time.time() - t0, 1), violations=nviol)
     with open(evpath, "w") as f:
